@@ -47,6 +47,12 @@ CHECKS = {
          'exact integer predicates; complete for all vertex lists of length 0..4 on a 4x4 grid x 81 query points (thorough: +5-vertex '
          'and 5x5), sampled beyond that',
          'trusts the 60-line integer oracle (oracle_geom.cpp, no gdstk headers); coordinates restricted to exactly representable dyadic values', '7/C14'),
+ 'C07': ('exploration', 'reference-geometry monitor: element centre line rebuilt from the observed spine and per-point width/offset entries; winding-number probes of the outline against distance to that centre line; per-call bookkeeping assertions; under ASan+UBSan',
+         'after every construction call: one width/offset entry per spine point per element, taper ends exactly at the requested value and runs monotonically; '
+         'outline: points within 0.6 half widths of the centre line inside, points beyond join reach + 3 tolerances of the cap-extended centre line outside, '
+         'end planes for flush/round/half-width/extended ends, circular bends (arc mid point in, sharp corner out), duplicate removal keeps elements aligned',
+         'oracle in py/c07.py; elements whose centre line folds (offset or half width eats a whole segment at a corner) or approaches itself are outside the stated domain and skipped, counted in evidence; '
+         'PATH-record equivalence of simple paths is decided by C01/C03', '7/C07'),
  'C15': ('exploration', 'reference-semantics monitor: analytic curve evaluation with tracked curve state (end point, last control, end tangent) vs the vertices appended by every call, under ASan+UBSan',
          'per section: finite vertices, requested end point, every vertex located on the exact section with non-decreasing parameter, deviation <= 5 tolerances for arcs and '
          'non-doubling-back polynomial sections, fitted circle/tangent for turns, pass-through for interpolations; primitives against their exact outlines',
